@@ -19,6 +19,9 @@ LEVEL_TEXT = ("static: decides only the shape-of-code clauses: every *_first/*_l
 # fifth-round additions
 TECHNIQUE += "; " + 'must-pass-through (claim before destructor) in node_destroy of both lists; exact evaluation of ares_array_move over a finite domain of (alloc, offset, cnt, src, dest)'
 LEVEL_TEXT += " " + "(UNLINKFIRST) a node is unlinked before its value's destructor runs; (MOVEBOUND) ares_array_move performs every shift that stays inside the allocation, including one that ends at its last slot, and refuses a right shift past it (offset 0)."
+# sixth-round additions
+TECHNIQUE += "; " + "structural agreement of ares_realloc_zero's old-size argument with the capacity member"
+LEVEL_TEXT += " " + '(REALLOCOLD) growth with ares_realloc_zero states the capacity member times the unit as the old size.'
 LEVEL_NOTE = "trusts clang CFG + extractor; conformance to the ADT model needs model-based execution and is outside this family"
 DESIGN_REF = "DESIGN.md §6/C19"
 EXPLANATION = LEVEL_TEXT
@@ -201,6 +204,51 @@ def r_movebound(prog, R):
         r.viol(k, f.name, f.loc(el), "with alloc_cnt=%d offset=%d cnt=%d the move of %d member(s) from index %d to index %d would end at slot %d > %d and is performed: memmove writes past the allocation" % (a, o, c, nm, s_, d, d + nm, a))
     else:
         r.ok(k, f.loc(f.ln), "%d tuples" % n)
+
+
+def r_reallocold(prog, R):
+    """ares_realloc_zero(p, old, new) zeroes everything behind `old`.  Where the new size is N * k and the capacity member is then set to N,
+    the old size must be <capacity member> * k -- anything smaller wipes live members behind it (with an offset the live range ends at
+    offset + cnt, beyond cnt)."""
+    r = R.rule("R-C19-REALLOCOLD", "a container that grows with ares_realloc_zero tells it the size the block really has: where the new size is N * unit and the capacity member is "
+               "set to N afterwards, the old size is that capacity member * unit (a smaller figure makes the allocator zero live elements)", floor=1,
+               analysis="structural agreement of the old-size and new-size arguments with the capacity store that follows")
+    n = 0
+    for f in sorted(prog.funcs.values(), key=lambda x: x.key):
+        if not DSA(f):
+            continue
+        for b, i, c in f.calls():
+            if c.get("callee") != "ares_realloc_zero" or len(c.get("args", [])) != 3:
+                continue
+            old_, new_ = strip(c["args"][1]), strip(c["args"][2])
+            if new_ is None or old_ is None or new_.get("k") != "bin" or new_["op"] != "*" or old_.get("k") != "bin" or old_["op"] != "*":
+                continue
+            nf = [strip(new_["l"]), strip(new_["r"])]
+            of = [strip(old_["l"]), strip(old_["r"])]
+            # the shared unit factor
+            unit = None
+            for x in nf:
+                for y in of:
+                    if render(x) == render(y):
+                        unit = render(x)
+            if unit is None:
+                continue
+            nn = [x for x in nf if render(x) != unit]
+            oo = [x for x in of if render(x) != unit]
+            if len(nn) != 1 or not is_var(nn[0]):
+                continue
+            caps = [el for b2, i2, el in f.elements() if el["k"] == "asg" and el["e"]["op"] == "=" and is_var(strip(el["e"].get("r")), nn[0]["n"]) and strip(el["e"]["l"]).get("k") == "mem"]
+            if len(caps) != 1:
+                continue
+            cap = render(strip(caps[0]["e"]["l"]))
+            n += 1
+            k = "fn=%s old size = %s * %s" % (f.name, cap, unit)
+            if len(oo) == 1 and render(oo[0]) == cap:
+                r.ok(k, f.loc(c["ln"]))
+            else:
+                r.viol(k, f.name, f.loc(c["ln"]), "%s grows the block to %s * %s and records the capacity in %s, but tells ares_realloc_zero the old size is %s: everything behind that is zeroed, "
+                       "including live members (they end at offset + count, not at count)" % (f.name, nn[0]["n"], unit, cap, render(old_)))
+    r.require(n >= 1, "no ares_realloc_zero growth with a capacity store found in the containers")
 
 
 def r_reclaim(prog, R):
@@ -440,6 +488,7 @@ def run(prog, R, tier):
     r_claimdestroy(prog, R)
     r_unlinkfirst(prog, R)
     r_movebound(prog, R)
+    r_reallocold(prog, R)
     r_reclaim(prog, R)
     r_links(prog, R)
     r_arrayoff(prog, R)
